@@ -38,7 +38,10 @@ Proof. intros H fs fs' e [= _ ->]. apply H. reflexivity. Qed.
 
 Lemma late_mop op on_err : (forall x e, on_err x = RErr e -> early_error e = false) -> late_only (mop op on_err).
 Proof.
-  intros H fs fs' e. unfold mop. destruct (op fs) as [fs1|x]; [discriminate|]. intros [= _ Hx]. eapply H. eassumption.
+  intros H fs fs' e. unfold mop. destruct (fs_fault fs) as [[|k]|].
+  - intros [= _ Hx]. eapply H. eassumption.
+  - destruct (op _) as [fs1|x]; [discriminate|]. intros [= _ Hx]. eapply H. eassumption.
+  - destruct (op fs) as [fs1|x]; [discriminate|]. intros [= _ Hx]. eapply H. eassumption.
 Qed.
 
 Lemma late_mbind {A B} (x : M A) (f : A -> M B) : late_only x -> (forall a, late_only (f a)) -> late_only (mbind x f).
